@@ -23,7 +23,7 @@ func journal(id, check string, c interface{}) {
 		return
 	}
 	raw, _ := json.Marshal(c)
-	b, _ := json.Marshal(replayFile{Property: id, Check: check, Error: "process crashed while running this case", Case: raw})
+	b, _ := json.Marshal(replayFile{Property: id, Check: check, Error: "process crashed while running this case", Case: raw, Arch: buildArch()})
 	os.WriteFile(filepath.Join(dir, fmt.Sprintf("journal-%s-%d.json", id, envShard)), b, 0o644)
 }
 
@@ -44,8 +44,22 @@ func checkC04(c *FaultCase) (nontrivial bool, err error) {
 	}
 	defer ss.close()
 	var accepted []*gobinlog.Transaction
-	attempts := append(append([]AttemptSpec{}, c.Attempts...), AttemptSpec{Fault: Fault{Kind: "none"}})
+	attempts := append(append([]AttemptSpec{}, c.Attempts...), AttemptSpec{Fault: Fault{Kind: "none"}, Seek: c.FinalSeek})
 	for i, spec := range attempts {
+		var seeked *hist.Pos
+		if spec.Seek > 0 && i > 0 {
+			k := spec.Seek - 1
+			if k > len(accepted) {
+				k = len(accepted)
+			}
+			to := start
+			if k > 0 {
+				to = exp[k-1].Next
+			}
+			ss.s.SetBinlogPosition(gobinlog.Position{Filename: to.File, Offset: to.Off})
+			accepted = accepted[:k]
+			seeked = &to
+		}
 		at, cleanup := faultAttempt(ss, l, spec)
 		st := ss.run(at)
 		cleanup()
@@ -56,6 +70,9 @@ func checkC04(c *FaultCase) (nontrivial bool, err error) {
 		what := fmt.Sprintf("attempt %d (%s at %d)", i+1, spec.Fault.Kind, spec.Fault.At)
 		if req, ok := st.dump(); ok {
 			allowed := allowedResume(l, exp, len(accepted), start, su)
+			if seeked != nil {
+				allowed = map[hist.Pos]bool{*seeked: true}
+			}
 			p := hist.Pos{File: req.File, Off: int64(req.Pos)}
 			if !allowed[p] {
 				return nontrivial, fmt.Errorf("%s: dump request asks for %q:%d after %d accepted transactions; allowed resume points are %v", what, req.File, req.Pos, len(accepted), keys(allowed))
@@ -117,7 +134,7 @@ func TestC04(t *testing.T) {
 	defer rec.Flush(t)
 	o := faultHistOpt()
 	kinds := append(append([]string{}, masterFaults...), clientFaults...)
-	kinds = append(kinds, "err_handshake", "err_query") // attempts that fail before the dump starts must leave the position alone
+	kinds = append(kinds, "err_handshake", "err_query", "dump_write_fails") // attempts that fail before the dump starts must leave the position alone
 	// thorough tier: ENUMERATE one failing attempt = (kind x every fault point x pacing) on fixed history shapes
 	if thorough() {
 		idx, n, stop := 0, 0, false
@@ -153,7 +170,7 @@ func TestC04(t *testing.T) {
 					for i := 1; i <= 3*nsteps+4; i++ {
 						points = append(points, i)
 					}
-				case k == "err_handshake" || k == "err_query":
+				case k == "err_handshake" || k == "err_query" || k == "dump_write_fails":
 					points = []int{0}
 				default:
 					points = []int{1}
@@ -204,8 +221,15 @@ func TestC04(t *testing.T) {
 		cls := []string{fmt.Sprintf("failed-attempts=%d", na)}
 		for i := 0; i < na; i++ {
 			spec := AttemptSpec{Fault: drawFault(rt, kinds, nsteps, ntx), Pacing: rapid.IntRange(0, 1).Draw(rt, "pacing")}
+			if i > 0 && rapid.IntRange(0, 5).Draw(rt, "seek") == 0 {
+				spec.Seek = rapid.IntRange(1, 4).Draw(rt, "seek_to")
+			}
 			c.Attempts = append(c.Attempts, spec)
 			cls = append(cls, "fault/"+spec.Fault.Kind, fmt.Sprintf("pacing=%d", spec.Pacing))
+		}
+		if rapid.IntRange(0, 5).Draw(rt, "seek_last") == 0 {
+			c.FinalSeek = rapid.IntRange(1, 4).Draw(rt, "seek_last_to")
+			cls = append(cls, "caller-repositions-between-attempts")
 		}
 		journal("C04", "c04", c)
 		nt, err := checkC04(c)
